@@ -31,7 +31,7 @@ def ty_mich(t) -> str:
 
 
 _TYC = {'int': 'TInt', 'nat': 'TNat', 'string': 'TString', 'bytes': 'TBytes', 'mutez': 'TMutez', 'timestamp': 'TTimestamp',
-        'address': 'TAddress', 'chain_id': 'TChainId', 'set': 'TSet', 'map': 'TMap', 'bool': 'TBool', 'unit': 'TUnit', 'operation': 'TOperation',
+        'address': 'TAddress', 'chain_id': 'TChainId', 'set': 'TSet', 'map': 'TMap', 'lambda': 'TLambda', 'bool': 'TBool', 'unit': 'TUnit', 'operation': 'TOperation',
         'pair': 'TPair', 'option': 'TOption', 'or': 'TOr', 'list': 'TList'}
 
 
@@ -46,7 +46,7 @@ def ty_of_expr(e) -> Any:
     if not isinstance(e, dict) or 'prim' not in e:
         return None
     p, args = e['prim'], e.get('args', [])
-    if p in _TYC and len(args) == {'pair': 2, 'or': 2, 'option': 1, 'list': 1, 'set': 1, 'map': 2}.get(p, 0):
+    if p in _TYC and len(args) == {'pair': 2, 'or': 2, 'option': 1, 'list': 1, 'set': 1, 'map': 2, 'lambda': 2}.get(p, 0):
         sub = [ty_of_expr(a) for a in args]
         if any(s is None for s in sub):
             return None
@@ -127,7 +127,7 @@ def data_coq(d) -> str:
 NULLARY = ['SWAP', 'PAIR', 'UNPAIR', 'CAR', 'CDR', 'SOME', 'UNIT', 'CONS', 'SIZE', 'ADD', 'SUB', 'MUL', 'NEG', 'ABS', 'ISNAT',
            'INT', 'EDIV', 'COMPARE', 'EQ', 'NEQ', 'LT', 'GT', 'LE', 'GE', 'AND', 'OR', 'XOR', 'NOT', 'CONCAT', 'FAILWITH',
            'LSL', 'LSR', 'SLICE',
-           'MEM', 'GET', 'UPDATE', 'GET_AND_UPDATE',
+           'MEM', 'GET', 'UPDATE', 'GET_AND_UPDATE', 'EXEC', 'APPLY',
            'SUB_MUTEZ', 'AMOUNT', 'BALANCE', 'SENDER', 'SOURCE', 'SELF_ADDRESS', 'NOW', 'LEVEL', 'CHAIN_ID']
 
 
@@ -160,6 +160,8 @@ def code_mich(i, rng: random.Random | None = None) -> str:
         return f'{k} {ty_mich(i[1])}'
     if k == 'EMPTY_MAP':
         return f'{k} {ty_mich(i[1])} {ty_mich(i[2])}'
+    if k == 'LAMBDA':
+        return f'LAMBDA {ty_mich(i[1])} {ty_mich(i[2])} {code_mich(i[3], rng)}'
     raise ValueError(i)
 
 
@@ -186,6 +188,8 @@ def code_coq(i) -> str:
         return f'(I_{k} {ty_coq(i[1])})'
     if k == 'EMPTY_MAP':
         return f'(I_{k} {ty_coq(i[1])} {ty_coq(i[2])})'
+    if k == 'LAMBDA':
+        return f'(I_LAMBDA {ty_coq(i[1])} {ty_coq(i[2])} {code_coq(i[3])})'
     raise ValueError(i)
 
 
@@ -234,7 +238,7 @@ def mich_key(t, d):
 
 
 def comparable(t) -> bool:
-    if t[0] in ('list', 'set', 'map', 'operation', 'address', 'chain_id'):   # address/chain_id: outside the fragment's COMPARE
+    if t[0] in ('list', 'set', 'map', 'lambda', 'operation', 'address', 'chain_id'):   # address/chain_id: outside the fragment's COMPARE
         return False
     return all(comparable(x) for x in t[1:])
 
@@ -281,7 +285,7 @@ def gen_mutez(rng: random.Random) -> int:
 
 
 def has_literal(t) -> bool:
-    if t[0] in ('address', 'chain_id', 'operation'):
+    if t[0] in ('address', 'chain_id', 'operation', 'lambda'):
         return False
     return all(has_literal(x) for x in t[1:])
 
@@ -462,6 +466,9 @@ class Gen:
             return [(rng.choice(['SENDER', 'SOURCE', 'SELF_ADDRESS']),)]
         if k == 'chain_id':
             return [('CHAIN_ID',)]
+        if k == 'lambda':
+            body, _ = self.body_to([t[1]], [t[2]], rng.randrange(0, 4))
+            return [('LAMBDA', t[1], t[2], body)]
         if k == 'pair':
             return self.produce(t[2]) + self.produce(t[1]) + [('PAIR',)]
         if k == 'option':
@@ -524,6 +531,7 @@ class Gen:
         add(0.5, lambda: self._nil(s))
         add(0.4, lambda: self._none(s))
         add(0.5, lambda: self._empty_coll(s))
+        add(0.5, lambda: self._lambda(s))
         if s:
             add(1.0 if len(s) > 3 else 0.4, lambda: ([('DROP', 1)], s[1:]))
             add(1.5, lambda: self._dup(s))
@@ -549,6 +557,10 @@ class Gen:
                 add(2.5, lambda: self._compare(s))
             if snd[0] == 'list' and snd[1] == top:
                 add(3.0, lambda: ([('CONS',)], s[1:]))
+            if snd[0] == 'lambda' and snd[1] == top:
+                add(8.0, lambda: ([('EXEC',)], [snd[2]] + s[2:]))
+            if snd[0] == 'lambda' and snd[1][0] == 'pair' and snd[1][1] == top and has_literal(top):
+                add(8.0, lambda: ([('APPLY',)], [('lambda', snd[1][2], snd[2])] + s[2:]))
             if snd[0] in ('set', 'map') and snd[1] == top:
                 add(4.0, lambda: ([('MEM',)], [T_BOOL] + s[2:]))
                 if snd[0] == 'map':
@@ -675,6 +687,35 @@ class Gen:
     def _updaten(self, s):
         k = self.rng.randrange(0, 2 * spine_len(s[1]) - 1)
         return [('UPDATEN', k)], [ty_update_n(k, s[0], s[1])] + s[2:]
+
+    def _lambda(self, s):
+        """LAMBDA, often applied right away to the top of the stack (EXEC) or partially applied first (APPLY)"""
+        rng = self.rng
+        r = rng.random()
+        if s and r < 0.45:
+            a = s[0]
+            code, res = self.seq([a], rng.randrange(0, 4))
+            if res == FAIL:
+                b = gen_type(rng, 1)
+            else:
+                b = res[0] if res else gen_type(rng, 1)
+                code = code + self.convert(res, [b])
+            return [('LAMBDA', a, b, ('SEQ', code)), ('SWAP',), ('EXEC',)], [b] + s[1:]
+        if len(s) >= 2 and r < 0.75 and has_literal(s[0]):
+            ta, tb = s[0], s[1]
+            code, res = self.seq([('pair', ta, tb)], rng.randrange(0, 4))
+            if res == FAIL:
+                c = gen_type(rng, 1)
+            else:
+                c = res[0] if res else gen_type(rng, 1)
+                code = code + self.convert(res, [c])
+            lam = ('LAMBDA', ('pair', ta, tb), c, ('SEQ', code))
+            if rng.random() < 0.6:
+                return [lam, ('SWAP',), ('APPLY',), ('SWAP',), ('EXEC',)], [c] + s[2:]
+            return [lam, ('SWAP',), ('APPLY',)], [('lambda', tb, c)] + s[1:]
+        a, b = gen_type(rng, 1), gen_type(rng, 1)
+        body, _ = self.body_to([a], [b], rng.randrange(0, 4))
+        return [('LAMBDA', a, b, body)], [('lambda', a, b)] + s
 
     def _empty_coll(self, s):
         k = gen_type(self.rng, 1, True)
@@ -1034,6 +1075,12 @@ def obj_pval(v) -> str:
         if isinstance(r, MichelsonType) and not isinstance(l, MichelsonType):
             return f'(PRight {ty_coq(obj_ty(type(v).args[0]))} {obj_pval(r)})'
         raise Unrenderable(f'malformed or value {v.items!r}')
+    if p == 'lambda':
+        try:
+            body = seq_of(v.value.as_micheline_expr())
+        except Outside as e:
+            raise Unrenderable(f'lambda body outside the fragment: {e}') from e
+        return f'(PLam {ty_coq(obj_ty(type(v).args[0]))} {ty_coq(obj_ty(type(v).args[1]))} {code_coq(body)})'
     if p == 'list':
         return f'(PList {ty_coq(obj_ty(type(v).args[0]))} {clist(obj_pval(x) for x in v.items)})'
     if p == 'set':
@@ -1441,6 +1488,21 @@ def instr_sweep(rng: random.Random, thorough: bool = False):
                 add([(mt, mv)], [('MAP', ('SEQ', [('CDR',), ('SOME',)]))])
             add([], [('EMPTY_SET', kt), ('PUSH', T_BOOL, ('bool', True)), ('PUSH', kt, gen_data(rng, kt)), ('UPDATE',)])
             add([], [('EMPTY_MAP', kt, vt), ('PUSH', ('option', vt), ('some', gen_data(rng, vt))), ('PUSH', kt, gen_data(rng, kt)), ('UPDATE',)])
+    # lambdas: LAMBDA / EXEC / APPLY with captured values of every literal shape
+    for _ in range(40 if thorough else 14):
+        ta = gen_type(rng, 2)
+        while not has_literal(ta):
+            ta = gen_type(rng, 2)
+        tb = gen_type(rng, 1)
+        while not has_literal(tb):
+            tb = gen_type(rng, 1)
+        va, vb = gen_data(rng, ta), gen_data(rng, tb)
+        lam = ('LAMBDA', ('pair', ta, tb), ('pair', tb, ta), ('SEQ', [('UNPAIR',), ('SWAP',), ('PAIR',)]))
+        add([(ta, va)], [lam, ('SWAP',), ('APPLY',)])
+        add([(ta, va), (tb, vb)], [lam, ('SWAP',), ('APPLY',), ('SWAP',), ('EXEC',)])
+        add([(ta, va)], [('LAMBDA', ta, ('option', ta), ('SEQ', [('SOME',)])), ('SWAP',), ('EXEC',)])
+        add([(ta, va)], [('LAMBDA', ta, tb, ('SEQ', [('FAILWITH',)])), ('SWAP',), ('EXEC',)])
+        add([(ta, va), (tb, vb)], [('LAMBDA', ta, ta, ('SEQ', [])), ('DUP', 1), ('DIP', 1, ('SEQ', [('SWAP',), ('EXEC',)])), ('PAIR',)])
     # right combs of every width; leaves and the last component may themselves be pairs
     leaf_types = [T_INT, T_STRING, ('pair', T_NAT, T_BOOL), ('option', T_INT), T_UNIT]
     for width in range(2, 6):
@@ -1581,3 +1643,59 @@ def session_repro(case) -> str:
             f"{e['amount']}, {e['balance']}, {e['sender']!r}, {e['source']!r}, {e['self']!r}, {e['now']}, {e['level']}, {e['chain_id']!r}; ")
     return (f"from pytezos.michelson.repl import Interpreter; i=Interpreter(); {envs}i.execute({pre!r})\n"
             f"for cell in {cells!r}:\n    r=i.execute(cell); print(r.error, i.stack.items, i.stack.protected)")
+
+
+# --------------------------------------------------------------------------------------
+# Micheline code -> instruction tuples (lambda values, Octez scripts)
+# --------------------------------------------------------------------------------------
+class Outside(Exception):
+    pass
+
+
+def ty_of(e):
+    t = ty_of_expr(e)
+    if t is None:
+        raise Outside(f'type {e}')
+    return t
+
+
+def instr_of(m):
+    if isinstance(m, list):
+        return ('SEQ', [instr_of(x) for x in m])
+    p, args = m.get('prim'), m.get('args', [])
+    if p in NULLARY and not args:
+        return (p,)
+    if p in ('DROP', 'DUP') and len(args) <= 1:
+        return (p, int(args[0]['int']) if args else 1)
+    if p in ('DIG', 'DUG') and len(args) == 1:
+        return (p, int(args[0]['int']))
+    if p in ('PAIR', 'UNPAIR', 'GET', 'UPDATE') and len(args) == 1 and 'int' in args[0]:
+        return (p + 'N', int(args[0]['int']))
+    if p == 'PUSH' and len(args) == 2:
+        t = ty_of(args[0])
+        try:
+            return ('PUSH', t, data_of_micheline(t, args[1]))
+        except Unrenderable as e:
+            raise Outside(str(e)) from e
+    if p == 'DIP':
+        if len(args) == 1:
+            return ('DIP', 1, seq_of(args[0]))
+        return ('DIP', int(args[0]['int']), seq_of(args[1]))
+    if p in ('IF', 'IF_NONE', 'IF_LEFT', 'IF_CONS') and len(args) == 2:
+        return (p, seq_of(args[0]), seq_of(args[1]))
+    if p in ('LOOP', 'LOOP_LEFT', 'ITER', 'MAP') and len(args) == 1:
+        return (p, seq_of(args[0]))
+    if p in ('LEFT', 'RIGHT', 'NONE', 'NIL', 'EMPTY_SET') and len(args) == 1:
+        return (p, ty_of(args[0]))
+    if p == 'EMPTY_MAP' and len(args) == 2:
+        return (p, ty_of(args[0]), ty_of(args[1]))
+    if p == 'LAMBDA' and len(args) == 3:
+        return (p, ty_of(args[0]), ty_of(args[1]), seq_of(args[2]))
+    raise Outside(f'instruction {p}/{len(args)}')
+
+
+def seq_of(m):
+    i = instr_of(m)
+    return i if i[0] == 'SEQ' else ('SEQ', [i])
+
+
